@@ -956,8 +956,11 @@ func NewWriter(w io.Writer, opts *WriterOptions) (*Writer, error) {
 			if opts.Compressor.Compression() == "" {
 				return nil, fmt.Errorf("custom compressor requires compression format")
 			}
-			opts.Compressor.Compressor().Reset(&compressed)
-			compressedWriter = newCountingCRCWriter(opts.Compressor.Compressor(), opts.IncludeCRC)
+			// ask for the compressor once: an implementation may hand out a new one per call,
+			// and the one that was pointed at the chunk buffer is the one that must be written to.
+			compressor := opts.Compressor.Compressor()
+			compressor.Reset(&compressed)
+			compressedWriter = newCountingCRCWriter(compressor, opts.IncludeCRC)
 		case opts.Compression == CompressionZSTD:
 			level := encoderLevelFromZstd(opts.CompressionLevel)
 			zw, err := zstd.NewWriter(&compressed, zstd.WithEncoderLevel(level))
